@@ -77,11 +77,21 @@ static StepContent genStep(Rng& r, int step, int maxBig) {
     std::vector<int> pick(NMENU); for (int i = 0; i < NMENU; ++i) pick[i] = i;
     r.shuffle(pick); pick.resize(k); std::sort(pick.begin(), pick.end());
     int big = 0;
+    // As in real restart files, the arrays of one family have the same number of elements (all cell arrays,
+    // all per-well arrays, all per-group arrays), so consecutive arrays often have records of equal length.
+    long family[3] = {-1, -1, -1};
+    const bool families = r.chance(0.6);
     for (int m : pick) {
         eref::Array a; a.name = MENU[m].name; a.type = MENU[m].type;
         bool usedBig = false;
-        const long n = a.type == eref::MESS ? 0 : stepArrayLength(r, a.type, big < maxBig, usedBig);
+        long n = a.type == eref::MESS ? 0 : stepArrayLength(r, a.type, big < maxBig, usedBig);
         if (usedBig) ++big;
+        const std::string nm = a.name;
+        const int fam = (nm == "PRESSURE" || nm == "SWAT" || nm == "RS") ? 0 : (nm == "IWEL" || nm == "XWEL" || nm == "ZWEL") ? 1 : (nm == "IGRP" || nm == "XGRP" || nm == "ZGRP") ? 2 : -1;
+        if (families && fam >= 0) {
+            if (family[fam] < 0) family[fam] = std::min<long>(n, a.type == eref::CHAR ? n : 3L * eref::STR_BLOCK);   // a later CHAR member must stay small
+            else { n = family[fam]; if (usedBig) --big; }
+        }
         char pad = 0;
         switch (a.type) {
         case eref::INTE: a.iv.resize(n); for (auto& x : a.iv) x = (int32_t)r.range(-99999, 99999); if (n > 0 && r.chance(0.3)) a.iv[0] = step; break;
@@ -151,6 +161,36 @@ static ecl::eclArrType libType(eref::Type t) {
 }
 
 struct Survivor { int step; int pos; size_t start; };
+
+// Hostile environment for the truncation readers.  A reader that does not notice a short read goes on
+// with whatever its local variables held before; which value that is depends on the calls made
+// earlier (valgrind: "conditional jump depends on uninitialised value" in readBinaryArray on cut files).
+// To make the outcome a function of the case and not of the call history, the stack below the caller
+// is filled, before every library call on a cut file, with the one word that is worst for a reader of
+// this file: the big-endian length of the record the cut falls into.  Correct code never reads it.
+static bool POISON = false;      // stage argument poison=1
+__attribute__((noinline)) static void poisonStack(uint32_t recordLength) {
+    if (!POISON) return;
+    const uint32_t asStoredInFile = __builtin_bswap32(recordLength);
+    volatile uint32_t area[24576];       // 96 KB below the caller's frame
+    for (size_t i = 0; i < sizeof area / sizeof *area; ++i) area[i] = asStoredInFile;
+    asm volatile("" ::: "memory");
+}
+// length word of the record (header or data record) that contains byte c of the file, 16 at a boundary
+static uint32_t recordLengthAt(const std::vector<eref::Entry>& index, long c) {
+    for (const auto& e : index) {
+        if (c < (long)e.header_off || c >= (long)e.end_off) continue;
+        if (c < (long)e.data_off) return 16;
+        const long B = eref::block_elems(e.type), es = eref::elem_bytes(e.type, e.width);
+        long pos = (long)e.data_off, rest = (long)e.count;
+        while (rest > 0) {
+            const long m = std::min(B, rest), bytes = m * es;
+            if (c < pos + 8 + bytes) return (uint32_t)bytes;
+            pos += 8 + bytes; rest -= m;
+        }
+    }
+    return 16;
+}
 
 static std::string seqText(const std::vector<int>& seq, bool fmt) {
     std::string o = std::string(fmt ? "formatted" : "unformatted") + " unified restart file, report steps written in this order:";
@@ -356,6 +396,7 @@ int main(int argc, char** argv) {
     const int L = (int)args.geti("L", 4), N = (int)args.geti("N", 5);
     const long chunks = args.geti("chunks", 16);
     const long lraCases = args.geti("lra_cases", 0);
+    POISON = args.geti("poison", 0) != 0;
     const bool every = args.geti("every_state", 0) != 0;      // truncate the file after every write, not only the final one
     const std::string fn = scratch + "/T.UNRST";
 
@@ -403,6 +444,7 @@ int main(int argc, char** argv) {
         const long lo = total * chunk / chunks, hi = total * (chunk + 1) / chunks;
         rep.case_done(vh::fnv(states.back().bytes, (uint64_t)(chunk * 2 + (lra ? 1 : 0))), hi > lo && !seq.empty());
         rep.cover("case_kind", lra ? "listOfRstArrays on prefixes" : "named reads on prefixes");
+        rep.cover("stack_below_library_calls", POISON ? "filled with the cut record's length word" : "left as it is");
         rep.cover("sequence_length", std::to_string(seq.size()));
         rep.cover("steps_in_file", std::to_string(states.back().surv.size()));
         rep.maxof("max_file_size", (double)states.back().bytes.size());
@@ -422,11 +464,12 @@ int main(int argc, char** argv) {
                 for (const auto& sv : st.surv) if ((long)sv.start == c && c > 0) complete = true;
                 if (complete) rep.count("prefixes_ending_on_a_step_boundary");
                 const std::string where = "file cut at byte " + std::to_string(c) + " of " + std::to_string(size);
-                rep.journal_note(witness + where + (lra ? " (listOfRstArrays)" : ""));
+                if (lra || c == cLast) rep.journal_note(witness + where + (lra ? " (listOfRstArrays)" : " and below (named reads)"));   // witness if the process dies
                 auto viol = [&](const std::string& key, const std::string& what) { rep.violation(key, where + ": " + what, witness + where + ": " + what + "\n"); };
 
                 std::unique_ptr<ecl::ERst> rp;
-                try { rp.reset(new ecl::ERst(fn)); }
+                const uint32_t poison = recordLengthAt(st.index, c);
+                try { poisonStack(poison); rp.reset(new ecl::ERst(fn)); }
                 catch (const std::exception& e) {
                     rep.count("prefixes_refused");
                     if (complete && c > 0) viol("complete-prefix-unreadable", std::string("the prefix holds complete steps only, yet ERst refuses it: ") + std::string(e.what()).substr(0, 200));
@@ -438,10 +481,10 @@ int main(int argc, char** argv) {
                 bool listOk = list.size() <= st.index.size();
                 for (size_t i = 0; listOk && i < list.size(); ++i) {
                     const auto& e = st.index[i];
-                    listOk = std::get<0>(list[i]) == e.name && std::get<1>(list[i]) == libType(e.type) && std::get<2>(list[i]) == e.count && (long)e.data_off <= c;
+                    listOk = std::get<0>(list[i]) == e.name && std::get<1>(list[i]) == libType(e.type) && std::get<2>(list[i]) == e.count && (long)e.header_off + 20 <= c;   // name, count and type lie inside the cut
                 }
                 rep.count("comparisons_listing");
-                if (!listOk) { viol("phantom-array", "EclFile lists " + std::to_string(list.size()) + " arrays, not a prefix of the arrays whose headers lie inside the cut"); continue; }
+                if (!listOk) { viol("phantom-array", "EclFile lists " + std::to_string(list.size()) + " arrays; they are not the leading arrays of the file whose header (name, count, type) lies inside the cut"); continue; }
                 // listing: steps
                 const auto steps = r.listOfReportStepNumbers();
                 bool stepsOk = steps.size() <= st.surv.size();
@@ -456,6 +499,7 @@ int main(int argc, char** argv) {
                         const auto want = contents[st.surv[i].pos].onDisk();
                         rep.count("listOfRstArrays_calls");
                         try {
+                            poisonStack(poison);
                             const auto l = r.listOfRstArrays(steps[i]);
                             bool ok = l.size() <= want.size() && !l.empty();
                             for (size_t k = 0; ok && k < l.size(); ++k) ok = std::get<0>(l[k]) == want[k].name && std::get<1>(l[k]) == libType(want[k].type) && std::get<2>(l[k]) == want[k].count();
@@ -485,22 +529,24 @@ int main(int argc, char** argv) {
                     // and load the others one by one; on every fourth offset every array is loaded by its own read
                     if (c & 3) {
                         rep.count("loadReportStepNumber_calls");
-                        try { r.loadReportStepNumber(steps[i]); }
+                        try { poisonStack(poison); r.loadReportStepNumber(steps[i]); }
                         catch (const std::exception& e) { rep.count("loadReportStepNumber_refused"); if (stepComplete) viol("complete-prefix-unreadable", "complete step " + std::to_string(steps[i]) + " cannot be loaded: " + std::string(e.what()).substr(0, 200)); }
                     }
                     try {
                         rep.count("reads");
+                        poisonStack(poison);
                         const auto& v = r.getRestartData<int>("SEQNUM", steps[i], 0);
-                        if (v.size() != 1 || v[0] != steps[i]) { viol("truncated-file-wrong-data:SEQNUM", "SEQNUM of step " + std::to_string(steps[i]) + " read as " + (v.empty() ? std::string("empty") : std::to_string(v[0]))); }
+                        if (v.size() != 1 || v[0] != steps[i]) { viol("truncated-file-wrong-data", "SEQNUM of step " + std::to_string(steps[i]) + " read as " + (v.empty() ? std::string("empty") : std::to_string(v[0]))); }
                         else rep.count("reads_exact");
                     } catch (const std::exception&) { rep.count("reads_refused"); if (stepComplete) viol("complete-prefix-unreadable", "SEQNUM of complete step " + std::to_string(steps[i]) + " cannot be read"); }
                     for (const auto& a : sc.arrays) {
                         if (a.type == eref::MESS) continue;
                         rep.count("reads");
                         try {
+                            poisonStack(poison);
                             const eref::Array got = erstGet(r, a, steps[i]);
                             std::string why;
-                            if (!eref::equal_exact(a, got, why)) viol(std::string("truncated-file-wrong-data:") + eref::type_name(a.type), a.name + " of step " + std::to_string(steps[i]) + " is returned without error but differs from what was written (" + eref::describe(a, 3) + "): " + why);
+                            if (!eref::equal_exact(a, got, why)) viol("truncated-file-wrong-data", a.name + " of step " + std::to_string(steps[i]) + " is returned without error but differs from what was written (" + eref::describe(a, 3) + "): " + why);
                             else rep.count("reads_exact");
                         } catch (const std::exception& e) {
                             rep.count("reads_refused");
